@@ -174,7 +174,7 @@ Qed.
 Definition wgeo (o : nat) (p : bytes) (w : writer) : Prop :=
   0 <= w_base w /\ 0 <= w_len w /\ 0 <= w_off w /\ w_base w + w_len w <= zlen p /\
   0 <= rb (w_chunk w) /\ Z.of_nat o + w_base w = rb (w_chunk w) + w_off w /\
-  w_off w + w_len w <= rsize (w_chunk w).
+  w_off w + w_len w <= rsize (w_chunk w) /\ 0 < rsize (w_chunk w).
 
 (* a Write of data that really is the chunk's content at stream position w_cur only puts right bytes *)
 Lemma bw_write_honest B o p w data :
@@ -184,7 +184,7 @@ Lemma bw_write_honest B o p w data :
     (forall x, w_base w <= Z.of_nat x < w_base w + w_len w ->
                w_cur w <= w_off w + (Z.of_nat x - w_base w) < w_cur w + zlen data -> okpos B o p' x).
 Proof.
-  intros (G1 & G2 & G3 & G4 & G5 & G6 & G7) Hc Hp.
+  intros (G1 & G2 & G3 & G4 & G5 & G6 & G7 & G8) Hc Hp.
   unfold bw_write. rewrite !positive_max.
   pose proof (zlen_nonneg data) as Hd.
   destruct (Z.ltb_spec (w_len w) (Z.max 0 (w_cur w - w_off w))) as [E1|E1].
@@ -230,7 +230,7 @@ Qed.
 
 (* invariant of one writer during a read: geometry, and either untouched or complete with its window right *)
 Definition wok (B : bytes) (o : nat) (p : bytes) (w : writer) : Prop :=
-  wgeo o p w /\
+  wgeo o p w /\ re (w_chunk w) < zlen B /\
   (w_cur w = 0 \/ (rsize (w_chunk w) <= w_cur w /\ win B o p (Z.to_nat (w_base w)) (Z.to_nat (w_len w)))).
 
 Lemma wgeo_len o p p' w : length p' = length p -> wgeo o p w -> wgeo o p' w.
@@ -238,7 +238,7 @@ Proof. unfold wgeo, zlen. intros ->. auto. Qed.
 
 Lemma wok_sound B o p p' w : sound B o p p' -> wok B o p w -> wok B o p' w.
 Proof.
-  intros Hs [G C]. split; [exact (wgeo_len o p p' w (proj1 Hs) G)|].
+  intros Hs [G [R C]]. split; [exact (wgeo_len o p p' w (proj1 Hs) G)|]. split; [exact R|].
   destruct C as [C|[C W]]; auto. right. split; auto. eapply sound_win; eauto.
 Qed.
 
@@ -259,18 +259,18 @@ Proof.
     + apply region_eqb_eq in E.
       assert (Hbw : exists p1, bw_write p w data = Some (p1, w_advance w (zlen data)) /\ sound B o p p1 /\
                 (zlen data = rsize c -> wok B o p1 (w_advance w (zlen data)) /\ rsize c <= w_cur w + zlen data)).
-      { destruct Hw1 as [G C]. destruct C as [C|[C W]].
+      { destruct Hw1 as [G [R C]]. destruct C as [C|[C W]].
         - destruct (bw_write_honest B o p w data G) as (p1 & E1 & S1 & Cov).
           + lia.
           + rewrite C, E. replace (rb c + 0) with (rb c) by lia. exact Hp.
           + exists p1. split; auto. split; auto. intros Hfull. split; [|lia]. split.
             * exact (wgeo_len o p p1 w (proj1 S1) G).
-            * right. simpl. split; [rewrite E; lia|].
-              intros x Hx. apply Cov; destruct G as (G1 & G2 & G3 & G4 & G5 & G6 & G7); rewrite E in *; lia.
+            * split; [exact R|]. right. simpl. split; [rewrite E; lia|].
+              intros x Hx. apply Cov; destruct G as (G1 & G2 & G3 & G4 & G5 & G6 & G7 & G8); rewrite E in *; lia.
         - exists p. split; [|split; [apply sound_refl|]].
-          + destruct G as (G1 & G2 & G3 & G4 & G5 & G6 & G7). apply bw_write_inert; auto.
+          + destruct G as (G1 & G2 & G3 & G4 & G5 & G6 & G7 & G8). apply bw_write_inert; auto.
           + intros Hfull. pose proof (zlen_nonneg data). split; [|rewrite <- E; lia].
-            split; [exact G|]. right. simpl. split; [lia|exact W]. }
+            split; [exact G|]. split; [exact R|]. right. simpl. split; [lia|exact W]. }
       destruct Hbw as (p1 & E1 & S1 & F1). rewrite E1.
       destruct (IH p1) as (p2 & t' & E2 & S2 & F2); auto.
       { eapply Forall_impl; [|exact Hwt]. intros a. apply wok_sound. exact S1. }
@@ -358,12 +358,948 @@ Proof.
     { replace (rb c) with ((rb c - off / cs * cs) + (off / cs) * cs) by lia. rewrite Z.mod_add by lia. exact H5. }
     assert (Hle : rb c <= off + n - 1).
     { pose proof (Z.div_mod (rb c) cs ltac:(lia)) as Hd. rewrite Hal in Hd.
-      assert (rb c / cs <= (off + n - 1) / cs).
-      { apply Z.div_le_mono; lia. } nia. }
+      assert (rb c / cs < (off + n - 1) / cs + 1) by nia.
+      nia. }
     repeat split; try lia.
   - intros y Hy Hs.
     apply (walk_loop_cover size cs _ y Hcs); try lia.
     unfold walk_fuel. rewrite Z2Nat.id; [lia|].
     assert (0 <= (Z.min (cs * ((off + n - 1) / cs) + cs - 1) (size - 1) - off / cs * cs) / cs) by (apply Z.div_pos; lia).
     lia.
+Qed.
+
+(* ------------------------------------------------------------------------------------------ *)
+(* cache and committed-set invariants *)
+
+Lemma cache_get_del ch k r : cache_get (cache_del ch k) r = if region_eqb k r then None else cache_get ch r.
+Proof.
+  induction ch as [|[k' d] t IH]; simpl.
+  - destruct (region_eqb k r); reflexivity.
+  - destruct (region_eqb k' k) eqn:E.
+    + apply region_eqb_eq in E. subst k'. rewrite IH. destruct (region_eqb k r); reflexivity.
+    + simpl. destruct (region_eqb k' r) eqn:E2.
+      * apply region_eqb_eq in E2. subst k'. rewrite region_eqb_sym, E. reflexivity.
+      * exact IH.
+Qed.
+
+Lemma cache_get_put ch k d r : cache_get (cache_put ch k d) r = if region_eqb k r then Some d else cache_get ch r.
+Proof.
+  unfold cache_put. simpl. destruct (region_eqb k r) eqn:E; auto. rewrite cache_get_del, E. reflexivity.
+Qed.
+
+Definition chunk_in (c : cfg) (r : region) : Prop := 0 <= rb r /\ rb r <= re r /\ re r < c_size c.
+
+Definition SI (c : cfg) (B : bytes) (ch : cache) (fe ev : list region) : Prop :=
+  cache_honest B ch /\ Good fe /\ Forall (chunk_in c) ev /\ (forall x, covered fe x <-> covered ev x).
+
+Definition wsafe (w : writer) : Prop := 0 <= w_len w.
+
+Lemma bw_write_some p w data : wsafe w -> exists p', bw_write p w data = Some (p', w_advance w (zlen data)).
+Proof.
+  unfold wsafe. intros Hl. unfold bw_write. rewrite !positive_max.
+  pose proof (zlen_nonneg data) as Hd.
+  destruct (Z.ltb_spec (w_len w) (Z.max 0 (w_cur w - w_off w))); [eauto|].
+  destruct (Z.leb_spec (zlen data) (Z.max 0 (w_off w - w_cur w))); [eauto|].
+  destruct (Z.ltb_spec (zlen data) (Z.max 0 (w_off w + w_len w - w_cur w)));
+  match goal with |- context [if ?a <? ?b then _ else _] => destruct (Z.ltb_spec a b) end; try lia; eauto.
+Qed.
+
+Lemma ws_write_some c data : forall ws p, Forall wsafe ws ->
+  exists p' ws', ws_write p ws c data = Some (p', ws') /\ Forall wsafe ws'.
+Proof.
+  induction ws as [|w t IH]; intros p Hs; simpl.
+  - exists p, []. auto.
+  - inversion Hs as [|? ? H1 Ht]; subst.
+    destruct (region_eqb (w_chunk w) c).
+    + destruct (bw_write_some p w data H1) as (p1 & E1). rewrite E1.
+      destruct (IH p1 Ht) as (p2 & t' & E2 & S2). rewrite E2. exists p2, (w_advance w (zlen data) :: t').
+      split; auto; constructor; auto.
+    + destruct (IH p Ht) as (p2 & t' & E2 & S2). rewrite E2. exists p2, (w :: t'). split; auto.
+Qed.
+
+Lemma slice_length B i n : 0 <= i -> 0 <= n -> i + n <= zlen B -> zlen (slice B i n) = n.
+Proof.
+  intros. unfold slice, zlen in *. rewrite firstn_length, skipn_length. lia.
+Qed.
+
+(* a full-length take of an honest body is the blob's content of the chunk *)
+Lemma take_blob_at B ck body :
+  0 <= rb ck -> prefix_at B (Z.to_nat (rb ck)) body ->
+  rsize ck <= zlen (firstn (Z.to_nat (rsize ck)) body) ->
+  firstn (Z.to_nat (rsize ck)) body = blob_at B ck.
+Proof.
+  intros Hb [k ->] Hl. unfold blob_at, slice. rewrite firstn_firstn.
+  unfold zlen in Hl. rewrite firstn_firstn, firstn_length in Hl.
+  replace (Nat.min (Z.to_nat (rsize ck)) k) with (Z.to_nat (rsize ck)) by lia. reflexivity.
+Qed.
+
+Definition SIf (c : cfg) (B : bytes) (f : fstate) : Prop :=
+  SI c B (f_cache f) (f_fetched f) (f_ever f) /\ Forall wsafe (f_ws f).
+Definition EI (B : bytes) (o : nat) (f : fstate) : Prop :=
+  Forall (wok B o (f_p f)) (f_ws f) /\ Forall (seen_done (f_seen f)) (f_ws f).
+Definition grows (fe fe' : list region) : Prop := forall x, covered fe x -> covered fe' x.
+
+Lemma SI_commit c B ch fe ev ck :
+  SI c B ch fe ev -> chunk_in c ck ->
+  SI c B (cache_put ch ck (blob_at B ck)) (add fe ck) (ck :: ev) /\ grows fe (add fe ck).
+Proof.
+  intros (H1 & H2 & H3 & H4) Hck.
+  assert (Hwf : wf_reg ck) by (unfold wf_reg; destruct Hck; lia).
+  destruct (region_add_spec fe ck H2 Hwf) as [HG HC].
+  split; [split; [|split; [|split]]|]; auto.
+  - intros r d. rewrite cache_get_put. destruct (region_eqb ck r) eqn:E.
+    + apply region_eqb_eq in E. subst. intros Hd. inversion Hd. reflexivity.
+    + apply H1.
+  - intros x. rewrite HC, covered_cons, H4. tauto.
+  - intros x Hx. apply HC. auto.
+Qed.
+
+Lemma cache_chunk_spec c B o f ck body f' rest s :
+  SIf c B f -> chunk_in c ck -> prefix_at B (Z.to_nat (rb ck)) body ->
+  cache_chunk f ck body = (f', rest, s) ->
+  SIf c B f' /\ grows (f_fetched f) (f_fetched f') /\ s <> SPanic /\ s <> SBadScript /\
+  prefix_at B (Z.to_nat (rb ck) + Z.to_nat (rsize ck)) rest /\
+  (EI B o f -> s = SOk -> EI B o f' /\ sound B o (f_p f) (f_p f')).
+Proof.
+  intros [HSI Hsafe] Hck Hp. unfold cache_chunk.
+  set (n := Z.to_nat (rsize ck)).
+  destruct (ws_write_some ck (firstn n body) (f_ws f) (f_p f) Hsafe) as (p' & ws' & Ew & Hsafe').
+  rewrite Ew.
+  assert (Hrest : prefix_at B (Z.to_nat (rb ck) + n) (skipn n body)) by (apply prefix_skipn; exact Hp).
+  destruct (Z.ltb_spec (zlen (firstn n body)) (rsize ck)) as [Hshort|Hfull]; intros E; inversion E; subst; clear E.
+  - split; [split; [exact HSI|exact Hsafe']|]. split; [intros x Hx; exact Hx|].
+    split; [discriminate|]. split; [discriminate|]. split; [exact Hrest|]. intros _ Hs; discriminate.
+  - assert (Htake : firstn n body = blob_at B ck) by (apply take_blob_at; auto; destruct Hck; lia).
+    rewrite Htake. destruct (SI_commit c B _ _ _ ck HSI Hck) as [HSI' Hg].
+    split; [split; [exact HSI'|exact Hsafe']|]. split; [exact Hg|].
+    split; [discriminate|]. split; [discriminate|]. split; [exact Hrest|].
+    intros [Hw Hsd] _. cbn [f_p f_ws f_seen].
+    destruct (ws_write_ok B o ck (firstn n body) (f_seen f) (f_ws f) (f_p f) Hw Hsd) as (p2 & ws2 & E2 & S2 & F2).
+    { apply prefix_firstn. exact Hp. }
+    rewrite Ew in E2. inversion E2; subst p2 ws2.
+    assert (Hlen : zlen (firstn n body) = rsize ck).
+    { destruct Hck as (? & ? & ?). unfold zlen, rsize in *. rewrite firstn_length in *. unfold n, rsize in *. lia. }
+    destruct (F2 Hlen) as [Hw' Hsd']. split; [split; [exact Hw'|exact Hsd']|exact S2].
+Qed.
+
+Lemma grows_refl fe : grows fe fe.
+Proof. intros x Hx; exact Hx. Qed.
+Lemma grows_trans a b d : grows a b -> grows b d -> grows a d.
+Proof. intros H1 H2 x Hx. apply H2, H1, Hx. Qed.
+
+Ltac five := refine (conj _ (conj _ (conj _ (conj _ _)))).
+Ltac stop_case :=
+  let E := fresh "E" in
+  intros E; inversion E; subst;
+  five; [auto | auto; try apply grows_refl | try discriminate; auto | try discriminate; auto
+        | let Hs := fresh "Hs" in intros ? Hs; try discriminate Hs].
+
+(* the chunks of one replied region, fed from its body *)
+Lemma cache_chunks_walk c B o e :
+  0 < c_cs c -> forall fuel i f body f' s,
+  0 <= i -> SIf c B f -> prefix_at B (Z.to_nat i) body ->
+  cache_chunks f (walk_loop fuel (c_size c) (c_cs c) i e) body = (f', s) ->
+  SIf c B f' /\ grows (f_fetched f) (f_fetched f') /\ s <> SPanic /\ s <> SBadScript /\
+  (EI B o f -> s = SOk -> EI B o f' /\ sound B o (f_p f) (f_p f')).
+Proof.
+  intros Hcs. induction fuel as [|fuel IH]; intros i f body f' s Hi HS Hp.
+  - simpl. stop_case. split; auto. apply sound_refl.
+  - cbn [walk_loop].
+    destruct ((i <=? e) && (i <? c_size c)) eqn:Econd.
+    2:{ simpl. stop_case. split; auto. apply sound_refl. }
+    apply andb_true_iff in Econd. destruct Econd as [E1 E2]. apply Z.leb_le in E1. apply Z.ltb_lt in E2.
+    set (ck := (i, if c_size c <=? i + c_cs c - 1 then c_size c - 1 else i + c_cs c - 1)).
+    assert (Hck : chunk_in c ck).
+    { unfold chunk_in, ck, rb, re; simpl. destruct (Z.leb_spec (c_size c) (i + c_cs c - 1)); lia. }
+    cbn [cache_chunks].
+    destruct (cache_chunk f ck body) as [[f1 rest] s1] eqn:Ec.
+    destruct (cache_chunk_spec c B o f ck body f1 rest s1 HS Hck Hp Ec) as (HS1 & G1 & N1 & N1' & P1 & X1).
+    destruct s1; [|stop_case|stop_case|stop_case].
+    intros E.
+    destruct (Z.leb_spec (c_size c) (i + c_cs c - 1)) as [Hclip|Hnoclip].
+    + rewrite walk_loop_nil in E by lia. simpl in E. inversion E; subst.
+      five; [exact HS1|exact G1|discriminate|discriminate|]. intros HE _. apply X1; auto.
+    + assert (Hrs : rsize ck = c_cs c) by (unfold ck, rsize, rb, re; simpl; lia).
+      assert (P2 : prefix_at B (Z.to_nat (i + c_cs c)) rest).
+      { replace (Z.to_nat (i + c_cs c)) with (Z.to_nat (rb ck) + Z.to_nat (rsize ck))%nat; auto.
+        rewrite Hrs. unfold ck, rb; simpl. lia. }
+      destruct (IH (i + c_cs c) f1 rest f' s ltac:(lia) HS1 P2 E) as (HS2 & G2 & N2 & N2' & X2).
+      five; [exact HS2|eapply grows_trans; eauto|exact N2|exact N2'|].
+      intros HE Hs. destruct (X1 HE eq_refl) as [HE1 S1]. destruct (X2 HE1 Hs) as [HE2 S2].
+      split; auto. eapply sound_trans; eauto.
+Qed.
+
+Lemma fetch_parts_spec c B o :
+  0 < c_cs c -> forall parts f f' s,
+  Forall (part_honest B) parts -> SIf c B f ->
+  fetch_parts c f parts = (f', s) ->
+  SIf c B f' /\ grows (f_fetched f) (f_fetched f') /\ s <> SPanic /\ s <> SBadScript /\
+  (EI B o f -> s = SOk -> EI B o f' /\ sound B o (f_p f) (f_p f')).
+Proof.
+  intros Hcs. induction parts as [|[reg body] t IH]; intros f f' s Hh HS.
+  - simpl. stop_case. split; auto. apply sound_refl.
+  - inversion Hh as [|? ? Hp Ht]; subst. destruct Hp as [Hb Hpre]. simpl in Hb, Hpre.
+    cbn [fetch_parts]. unfold walk_chunks.
+    destruct (Z.rem (rb reg) (c_cs c) =? 0); [|stop_case].
+    destruct (cache_chunks f _ body) as [f1 s1] eqn:Ec.
+    destruct (cache_chunks_walk c B o _ Hcs _ _ f body f1 s1 Hb HS Hpre Ec) as (HS1 & G1 & N1 & N1' & X1).
+    destruct s1; [|stop_case|stop_case|stop_case].
+    intros E. destruct (IH f1 f' s Ht HS1 E) as (HS2 & G2 & N2 & N2' & X2).
+    five; [exact HS2|eapply grows_trans; eauto|exact N2|exact N2'|].
+    intros HE Hs. destruct (X1 HE eq_refl) as [HE1 S1]. destruct (X2 HE1 Hs) as [HE2 S2].
+    split; auto. eapply sound_trans; eauto.
+Qed.
+
+(* all windows of the writers hold the right bytes *)
+Definition all_done (B : bytes) (o : nat) (p : bytes) (ws : list writer) : Prop :=
+  Forall (fun w => win B o p (Z.to_nat (w_base w)) (Z.to_nat (w_len w))) ws.
+
+Lemma fetch_regions_spec c B o parts ok f f' s :
+  0 < c_cs c -> Forall (part_honest B) parts -> SIf c B f ->
+  fetch_regions c f parts ok = (f', s) ->
+  SIf c B f' /\ grows (f_fetched f) (f_fetched f') /\ s <> SPanic /\ s <> SBadScript /\
+  (EI B o f -> s = SOk -> sound B o (f_p f) (f_p f') /\ all_done B o (f_p f') (f_ws f') /\ EI B o f').
+Proof.
+  intros Hcs Hh HS. unfold fetch_regions.
+  destruct (fetch_parts c f parts) as [f1 s1] eqn:Ep.
+  destruct (fetch_parts_spec c B o Hcs parts f f1 s1 Hh HS Ep) as (HS1 & G1 & N1 & N1' & X1).
+  destruct s1; [|stop_case|stop_case|stop_case].
+  destruct ok; simpl; [|stop_case].
+  destruct (all_seen (f_ws f1) (f_seen f1)) eqn:Eall; [|stop_case].
+  intros E; inversion E; subst.
+  five; [exact HS1|exact G1|discriminate|discriminate|].
+  intros HE _. destruct (X1 HE eq_refl) as [[Hw Hsd] S1]. split; auto. split; [|split; auto].
+  unfold all_done. unfold all_seen in Eall. rewrite forallb_forall in Eall.
+  rewrite Forall_forall in *. intros w Hin.
+  specialize (Hw w Hin). specialize (Hsd w Hin). specialize (Eall w Hin).
+  destruct Hw as [G [R [C|[C W]]]]; auto.
+  specialize (Hsd Eall). destruct G as (G1' & G2 & G3 & G4 & G5 & G6 & G7 & G8). lia.
+Qed.
+
+(* the windows of the writers never change *)
+Definition wkey (w : writer) : Z * Z := (w_base w, w_len w).
+
+Lemma bw_write_key p w d p' w' : bw_write p w d = Some (p', w') -> wkey w' = wkey w.
+Proof.
+  unfold bw_write.
+  repeat match goal with |- context [if ?b then _ else _] => destruct b end;
+  intros E; inversion E; reflexivity.
+Qed.
+
+Lemma ws_write_key c d : forall ws p p' ws', ws_write p ws c d = Some (p', ws') -> map wkey ws' = map wkey ws.
+Proof.
+  induction ws as [|w t IH]; intros p p' ws'; simpl.
+  - intros E; inversion E; reflexivity.
+  - destruct (region_eqb (w_chunk w) c).
+    + destruct (bw_write p w d) as [[p1 w1]|] eqn:E1; [|discriminate].
+      destruct (ws_write p1 t c d) as [[p2 t2]|] eqn:E2; [|discriminate].
+      intros E; inversion E; subst. simpl. rewrite (bw_write_key _ _ _ _ _ E1), (IH _ _ _ E2). reflexivity.
+    + destruct (ws_write p t c d) as [[p2 t2]|] eqn:E2; [|discriminate].
+      intros E; inversion E; subst. simpl. rewrite (IH _ _ _ E2). reflexivity.
+Qed.
+
+Lemma cache_chunk_key f ck body f' rest s :
+  cache_chunk f ck body = (f', rest, s) -> map wkey (f_ws f') = map wkey (f_ws f).
+Proof.
+  unfold cache_chunk.
+  destruct (ws_write (f_p f) (f_ws f) ck _) as [[p' ws']|] eqn:Ew.
+  - apply ws_write_key in Ew. destruct (_ <? _); intros E; inversion E; subst; simpl; exact Ew.
+  - intros E; inversion E; subst. reflexivity.
+Qed.
+
+Lemma cache_chunks_key : forall cks f body f' s,
+  cache_chunks f cks body = (f', s) -> map wkey (f_ws f') = map wkey (f_ws f).
+Proof.
+  induction cks as [|ck t IH]; intros f body f' s; simpl.
+  - intros E; inversion E; reflexivity.
+  - destruct (cache_chunk f ck body) as [[f1 rest] s1] eqn:Ec. apply cache_chunk_key in Ec.
+    destruct s1; try (intros E; inversion E; subst; exact Ec).
+    intros E. apply IH in E. congruence.
+Qed.
+
+Lemma fetch_parts_key c : forall parts f f' s,
+  fetch_parts c f parts = (f', s) -> map wkey (f_ws f') = map wkey (f_ws f).
+Proof.
+  induction parts as [|[reg body] t IH]; intros f f' s; simpl.
+  - intros E; inversion E; reflexivity.
+  - destruct (walk_chunks _ _ reg) as [cks|]; [|intros E; inversion E; reflexivity].
+    destruct (cache_chunks f cks body) as [f1 s1] eqn:Ec. apply cache_chunks_key in Ec.
+    destruct s1; try (intros E; inversion E; subst; exact Ec).
+    intros E. apply IH in E. congruence.
+Qed.
+
+Lemma fetch_regions_key c f parts ok f' s :
+  fetch_regions c f parts ok = (f', s) -> map wkey (f_ws f') = map wkey (f_ws f).
+Proof.
+  unfold fetch_regions. destruct (fetch_parts c f parts) as [f1 s1] eqn:Ep. apply fetch_parts_key in Ep.
+  destruct s1; try (intros E; inversion E; subst; exact Ep).
+  destruct (negb ok); [intros E; inversion E; subst; exact Ep|].
+  destruct (all_seen _ _); intros E; inversion E; subst; exact Ep.
+Qed.
+
+Lemma all_done_key B o p ws ws' : map wkey ws' = map wkey ws -> all_done B o p ws' -> all_done B o p ws.
+Proof.
+  unfold all_done. intros Hk H.
+  assert (Hm : forall l, Forall (fun w => win B o p (Z.to_nat (w_base w)) (Z.to_nat (w_len w))) l <->
+                         Forall (fun k => win B o p (Z.to_nat (fst k)) (Z.to_nat (snd k))) (map wkey l)).
+  { intros l. rewrite Forall_map. reflexivity. }
+  apply Hm. rewrite <- Hk. apply Hm. exact H.
+Qed.
+
+(* ------------------------------------------------------------------------------------------ *)
+(* the reply analysis hands honest parts to fetchRegions *)
+
+Lemma reply_parts_honest B r parts ok :
+  resp_honest B r -> reply_parts r = Some (FParts parts ok) -> Forall (part_honest B) parts.
+Proof.
+  destruct r; simpl; intros H E; inversion E; subst; auto;
+    try (constructor; [exact H|constructor]).
+Qed.
+
+Lemma fetch1_honest B single regs rs parts ok rest q :
+  Forall (resp_honest B) rs -> fetch1 single regs rs = (FParts parts ok, rest, q) -> Forall (part_honest B) parts.
+Proof.
+  destruct rs as [|r t]; simpl; intros H E; [inversion E|].
+  inversion H as [|? ? Hr Ht]; subst.
+  destruct (reply_parts r) as [f|] eqn:Er.
+  - inversion E; subst. eapply reply_parts_honest; eauto.
+  - destruct r; inversion E.
+Qed.
+
+Lemma fetch0_honest B single regs rs parts ok single' rest q :
+  Forall (resp_honest B) rs -> fetch0 single regs rs = (FParts parts ok, single', rest, q) -> Forall (part_honest B) parts.
+Proof.
+  destruct rs as [|r t]; simpl; intros H E; [inversion E|].
+  inversion H as [|? ? Hr Ht]; subst.
+  destruct (reply_parts r) as [f|] eqn:Er.
+  - inversion E; subst. eapply reply_parts_honest; eauto.
+  - destruct r; try (inversion E; fail).
+    + (* R403 *)
+      destruct t as [|r2 t2]; [inversion E|].
+      inversion Ht as [|? ? Hr2 Ht2]; subst.
+      destruct r2; try (inversion E; fail).
+      destruct (fetch1 single regs t2) as [[f1 rest1] q1] eqn:E1. inversion E; subst.
+      eapply fetch1_honest; eauto.
+    + (* R400 *)
+      destruct single; [inversion E|].
+      destruct (fetch1 true regs t) as [[f1 rest1] q1] eqn:E1. inversion E; subst.
+      eapply fetch1_honest; eauto.
+Qed.
+
+Definition SIs (c : cfg) (B : bytes) (s : st) : Prop := SI c B (s_cache s) (s_fetched s) (s_ever s).
+
+Lemma fetch_range_spec c B o s p ws rs s' p' ws' stt q :
+  0 < c_cs c -> SIs c B s -> Forall wsafe ws -> Forall (resp_honest B) rs ->
+  fetch_range c s p ws rs = (s', p', ws', stt, q) ->
+  SIs c B s' /\ grows (s_fetched s) (s_fetched s') /\ stt <> SPanic /\
+  (Forall (wok B o p) ws -> stt = SOk -> sound B o p p' /\ all_done B o p' ws).
+Proof.
+  intros Hcs HS Hsafe Hh. unfold fetch_range.
+  destruct ws as [|w0 wt].
+  { intros E; inversion E; subst. split; auto. split; [apply grows_refl|]. split; [discriminate|].
+    intros _ _. split; [apply sound_refl|constructor]. }
+  destruct (fetch0 (s_single s) (map w_chunk (w0 :: wt)) rs) as [[[fr single'] rest] q0] eqn:Ef.
+  destruct fr as [parts ok| |].
+  - destruct (fetch_regions c _ parts ok) as [f stt0] eqn:Er.
+    intros E; inversion E; subst.
+    assert (Hparts : Forall (part_honest B) parts) by (eapply fetch0_honest; eauto).
+    assert (HSf : SIf c B (mkF (s_cache s) (s_fetched s) (s_ever s) p (w0 :: wt) [])) by (split; [exact HS|exact Hsafe]).
+    destruct (fetch_regions_spec c B o parts ok _ f stt Hcs Hparts HSf Er) as (HS1 & G1 & N1 & N1' & X1).
+    cbn [f_cache f_fetched f_ever f_p f_ws f_seen] in *.
+    split; [exact (proj1 HS1)|]. split; [exact G1|]. split; [exact N1|].
+    intros Hw Hs. apply fetch_regions_key in Er. cbn [f_ws] in Er.
+    assert (HE : EI B o (mkF (s_cache s) (s_fetched s) (s_ever s) p (w0 :: wt) [])).
+    { split; [exact Hw|]. rewrite Forall_forall. intros w _ Hm. simpl in Hm. discriminate. }
+    destruct (X1 HE Hs) as (S1 & D1 & _). split; [exact S1|]. eapply all_done_key; eauto.
+  - intros E; inversion E; subst. split; [exact HS|]. split; [apply grows_refl|]. split; [discriminate|].
+    intros _ Hs; discriminate.
+  - intros E; inversion E; subst. split; [exact HS|]. split; [apply grows_refl|]. split; [discriminate|].
+    intros _ Hs; discriminate.
+Qed.
+
+(* ------------------------------------------------------------------------------------------ *)
+(* prepareChunksForRead *)
+
+(* facts about a chunk of the walk of a read [off, off+n) *)
+Definition rchunk (size off n : Z) (ck : region) : Prop :=
+  0 <= rb ck /\ rb ck <= re ck /\ re ck < size /\ rb ck <= off + n - 1 /\ off <= re ck + 1.
+
+Definition gbase (off : Z) (ck : region) : Z := positive (rb ck - off).
+Definition glower (off : Z) (ck : region) : Z := positive (off - rb ck).
+Definition gex (off n : Z) (ck : region) : Z := rsize ck - positive (re ck + 1 - (off + n)) - positive (off - rb ck).
+
+Lemma chunk_geom_eq off n ck : chunk_geom off n ck = (gbase off ck, glower off ck, gex off n ck).
+Proof. reflexivity. Qed.
+
+Lemma geom_facts size off n ck :
+  0 <= off -> 0 < n -> rchunk size off n ck ->
+  0 <= gbase off ck /\ 0 <= glower off ck /\ 0 <= gex off n ck /\ gbase off ck + gex off n ck <= n /\
+  off + gbase off ck = rb ck + glower off ck /\ glower off ck + gex off n ck <= rsize ck /\
+  (forall y, rb ck <= y <= re ck -> off <= y < off + n -> gbase off ck <= y - off < gbase off ck + gex off n ck).
+Proof.
+  intros Ho Hn (H1 & H2 & H3 & H4 & H5). unfold gbase, glower, gex. rewrite !positive_max. unfold rsize.
+  repeat split; try lia.
+Qed.
+
+Lemma blob_at_length B ck : 0 <= rb ck -> rb ck <= re ck -> re ck < zlen B -> zlen (blob_at B ck) = rsize ck.
+Proof. intros. unfold blob_at. apply slice_length; unfold rsize; lia. Qed.
+
+Lemma blob_at_prefix B ck : prefix_at B (Z.to_nat (rb ck)) (blob_at B ck).
+Proof. unfold blob_at, slice. apply prefix_slice_full. Qed.
+
+Lemma prepare_chunk_spec B off p ck lk :
+  0 <= off -> 0 < zlen p -> rchunk (zlen B) off (zlen p) ck -> lookup_honest B ck lk ->
+  let o := Z.to_nat off in
+  exists p' ow, prepare_chunk off p ck lk = Some (p', ow) /\ sound B o p p' /\
+    match ow with
+    | None => win B o p' (Z.to_nat (gbase off ck)) (Z.to_nat (gex off (zlen p) ck))
+    | Some w => wok B o p' w /\ w_cur w = 0 /\ wkey w = (gbase off ck, gex off (zlen p) ck)
+    end.
+Proof.
+  intros Ho Hn Hck Hlk o.
+  pose proof (geom_facts (zlen B) off (zlen p) ck Ho Hn Hck) as Hg.
+  unfold prepare_chunk. rewrite chunk_geom_eq.
+  set (base := gbase off ck) in *. set (lower := glower off ck) in *. set (ex := gex off (zlen p) ck) in *.
+  destruct Hg as (G1 & G2 & G3 & G4 & G5 & G6 & G7).
+  destruct Hck as (K1 & K2 & K3 & K4 & K5).
+  destruct (Z.ltb_spec ex 0); [lia|]. destruct (Z.ltb_spec (zlen p) (base + ex)); [lia|]. simpl.
+  assert (Hwgeo : forall p', length p' = length p -> wgeo o p' (mkW ck base ex lower 0)).
+  { intros p' Hl. unfold wgeo, zlen; simpl. rewrite Hl. unfold zlen in *. unfold rsize in *. unfold o. repeat split; lia. }
+  destruct lk as [data|].
+  - simpl in Hlk. subst data.
+    assert (Hlen : zlen (blob_at B ck) = rsize ck) by (apply blob_at_length; lia).
+    set (avail := skipn (Z.to_nat lower) (blob_at B ck)).
+    assert (Hav : prefix_at B (o + Z.to_nat base) (firstn (Z.to_nat ex) avail)).
+    { apply prefix_firstn. unfold avail.
+      replace (o + Z.to_nat base)%nat with (Z.to_nat (rb ck) + Z.to_nat lower)%nat by (unfold o; lia).
+      apply prefix_skipn. apply blob_at_prefix. }
+    destruct (write_honest B o p (Z.to_nat base) _ Hav) as [Hs Hcov].
+    assert (Hzl : ex <= zlen avail).
+    { unfold avail, zlen in *. rewrite skipn_length. lia. }
+    destruct (Z.leb_spec ex (zlen avail)); [|lia].
+    eexists. exists None. split; [reflexivity|]. split; [exact Hs|].
+    intros x Hx. apply Hcov.
+    + rewrite firstn_length. unfold zlen in Hzl. lia.
+    + unfold zlen in *. lia.
+  - eexists. eexists. split; [reflexivity|]. split; [apply sound_refl|].
+    split; [|split; reflexivity]. split; [apply Hwgeo; reflexivity|]. split; [simpl; lia|left; reflexivity].
+Qed.
+
+Definition chunk_served (B : bytes) (o : nat) (off n : Z) (p : bytes) (ws : list writer) (ck : region) : Prop :=
+  win B o p (Z.to_nat (gbase off ck)) (Z.to_nat (gex off n ck)) \/ In (gbase off ck, gex off n ck) (map wkey ws).
+
+Lemma prepare_conc_spec B off n lk : 0 <= off -> 0 < n -> lookups_honest B lk ->
+  forall chunks p, zlen p = n -> Forall (rchunk (zlen B) off n) chunks ->
+  let o := Z.to_nat off in
+  exists p' ws, prepare_conc off p chunks lk = Some (p', ws) /\ sound B o p p' /\
+    Forall (wok B o p') ws /\ Forall (fun w => w_cur w = 0) ws /\
+    Forall (chunk_served B o off n p' ws) chunks.
+Proof.
+  intros Ho Hn Hlk. induction chunks as [|ck t IH]; intros p Hp Hck o.
+  - exists p, []. simpl. split; auto. split; [apply sound_refl|]. repeat split; constructor.
+  - inversion Hck as [|? ? Hc1 Hct]; subst.
+    destruct (prepare_chunk_spec B off p ck (lk ck) Ho ltac:(lia) Hc1 (Hlk ck)) as (p1 & ow & E1 & S1 & M1).
+    cbn [prepare_conc]. rewrite E1.
+    assert (Hp1 : zlen p1 = zlen p) by (unfold zlen; f_equal; apply S1).
+    destruct (IH p1 Hp1 Hct) as (p2 & ws & E2 & S2 & W2 & C2 & D2). rewrite E2.
+    eexists. eexists. split; [reflexivity|]. split; [eapply sound_trans; eauto|].
+    destruct ow as [w|].
+    + destruct M1 as (Mw & Mc & Mk). split; [constructor; auto; eapply wok_sound; eauto|].
+      split; [constructor; auto|]. constructor.
+      * right. simpl. left. exact Mk.
+      * eapply Forall_impl; [|exact D2]. intros a [H|H]; [left; exact H|right; simpl; right; exact H].
+    + split; [exact W2|]. split; [exact C2|]. constructor.
+      * left. eapply sound_win; eauto.
+      * exact D2.
+Qed.
+
+Lemma adjust_spec size off n : 0 <= off <= size -> 0 < n -> adjust size off n = Z.min n (size - off).
+Proof. intros. unfold adjust. destruct (Z.leb_spec (size - off) n); destruct (Z.ltb_spec (size - off) 0); lia. Qed.
+
+(* if every chunk's window is right, the reported prefix of the buffer is the expected blob range *)
+Lemma windows_exact B off p chunks :
+  0 <= off <= zlen B -> 0 < zlen p ->
+  (forall y, off <= y < off + zlen p -> y < zlen B -> exists ck, In ck chunks /\ rb ck <= y <= re ck) ->
+  Forall (rchunk (zlen B) off (zlen p)) chunks ->
+  Forall (fun ck => win B (Z.to_nat off) p (Z.to_nat (gbase off ck)) (Z.to_nat (gex off (zlen p) ck))) chunks ->
+  firstn (Z.to_nat (adjust (zlen B) off (zlen p))) p = expected B off (zlen p).
+Proof.
+  intros Ho Hn Hcov Hck Hwin. rewrite adjust_spec by lia. unfold expected, slice.
+  set (m := Z.to_nat (Z.min (zlen p) (zlen B - off))).
+  apply list_ext.
+  - rewrite !firstn_length, skipn_length. unfold m, zlen in *. lia.
+  - intros x Hx. rewrite firstn_length in Hx.
+    rewrite !nth_error_firstn_lt by lia. rewrite nth_error_skipn_add.
+    destruct (Hcov (off + Z.of_nat x)) as (ck & Hin & Hy); [unfold m, zlen in *; lia|unfold m, zlen in *; lia|].
+    rewrite Forall_forall in Hck, Hwin. specialize (Hck ck Hin). specialize (Hwin ck Hin).
+    destruct (geom_facts (zlen B) off (zlen p) ck ltac:(lia) Hn Hck) as (G1 & G2 & G3 & G4 & G5 & G6 & G7).
+    apply Hwin. specialize (G7 (off + Z.of_nat x) Hy). unfold m, zlen in *. lia.
+Qed.
+
+Lemma served_done B o off n p' p'' ws chunks :
+  sound B o p' p'' -> all_done B o p'' ws -> Forall (chunk_served B o off n p' ws) chunks ->
+  Forall (fun ck => win B o p'' (Z.to_nat (gbase off ck)) (Z.to_nat (gex off n ck))) chunks.
+Proof.
+  intros Hs Hd Hc. eapply Forall_impl; [|exact Hc]. intros ck [H|H].
+  - eapply sound_win; eauto.
+  - apply in_map_iff in H. destruct H as (w & Hk & Hin).
+    unfold all_done in Hd. rewrite Forall_forall in Hd. specialize (Hd w Hin).
+    unfold wkey in Hk. inversion Hk; subst. exact Hd.
+Qed.
+
+Lemma wok_wsafe B o p ws : Forall (wok B o p) ws -> Forall wsafe ws.
+Proof.
+  intros H. eapply Forall_impl; [|exact H]. intros w [G _]. unfold wsafe. destruct G as (G1 & G2 & _). exact G2.
+Qed.
+
+Lemma sound_zlen B o p p' : sound B o p p' -> zlen p' = zlen p.
+Proof. intros [L _]. unfold zlen. rewrite L. reflexivity. Qed.
+
+Lemma expected_empty B off n : n = 0 \/ zlen B < off -> expected B off n = [].
+Proof.
+  intros H. unfold expected, slice.
+  replace (Z.to_nat (Z.min n (zlen B - off))) with 0%nat by (pose proof (zlen_nonneg B); lia). reflexivity.
+Qed.
+
+(* ReadAt without interference: byte-exact or an error, never a panic; the shared state keeps its invariant *)
+Lemma read_at_spec c B s off p0 rs s' r q :
+  cfg_ok c B -> 0 <= off -> SIs c B s -> Forall (resp_honest B) rs ->
+  read_at c s off p0 rs = (s', r, q) ->
+  SIs c B s' /\ grows (s_fetched s) (s_fetched s') /\ r <> RPanic /\
+  (forall d, r = ROk d -> d = expected B off (zlen p0)).
+Proof.
+  intros [Hsz Hcs] Ho HS Hh. unfold read_at.
+  destruct ((zlen p0 =? 0) || (c_size c <? off)) eqn:E0.
+  { intros E; inversion E; subst. split; auto. split; [apply grows_refl|]. split; [discriminate|].
+    intros d Hd. inversion Hd; subst. symmetry. apply expected_empty.
+    apply orb_true_iff in E0. destruct E0 as [E0|E0]; [left; apply Z.eqb_eq in E0; auto|right; apply Z.ltb_lt in E0; lia]. }
+  apply orb_false_iff in E0. destruct E0 as [E0a E0b]. apply Z.eqb_neq in E0a. apply Z.ltb_ge in E0b.
+  pose proof (zlen_nonneg p0) as Hn0.
+  destruct (read_walk (c_size c) (c_cs c) off (zlen p0) Hcs Ho ltac:(lia)) as (chunks & Ew & Hck & Hcov).
+  rewrite Ew.
+  assert (Hrc : Forall (rchunk (zlen B) off (zlen p0)) chunks).
+  { rewrite Forall_forall. intros ck Hin. destruct (Hck ck Hin) as (K1 & K2 & K3 & K4 & K5).
+    unfold rchunk. rewrite <- Hsz. repeat split; auto. }
+  assert (Hlk : lookups_honest B (cache_get (s_cache s))).
+  { intros ck. unfold lookup_honest. destruct (cache_get (s_cache s) ck) eqn:Eg; auto. apply (proj1 HS). exact Eg. }
+  unfold prepare.
+  destruct (prepare_conc_spec B off (zlen p0) _ Ho ltac:(lia) Hlk chunks p0 eq_refl Hrc) as (p1 & ws & E1 & S1 & W1 & C1 & D1).
+  rewrite E1.
+  destruct (fetch_range c s p1 ws rs) as [[[[s1 p2] ws2] stt] q1] eqn:Ef.
+  destruct (fetch_range_spec c B (Z.to_nat off) s p1 ws rs s1 p2 ws2 stt q1 Hcs HS (wok_wsafe _ _ _ _ W1) Hh Ef)
+    as (HS1 & G1 & N1 & X1).
+  intros E; inversion E; subst. split; [exact HS1|]. split; [exact G1|].
+  split; [destruct stt; simpl; try discriminate; congruence|].
+  intros d Hd. destruct stt; simpl in Hd; try discriminate. inversion Hd; subst.
+  destruct (X1 W1 eq_refl) as [S2 D2].
+  pose proof (served_done B _ off (zlen p0) p1 p2 ws chunks S2 D2 D1) as Hwin.
+  assert (Hl2 : zlen p2 = zlen p0) by (rewrite (sound_zlen _ _ _ _ S2), (sound_zlen _ _ _ _ S1); reflexivity).
+  rewrite Hsz, <- Hl2. apply windows_exact with (chunks := chunks); rewrite ?Hl2; auto; try lia.
+  intros y Hy Hys. apply Hcov; lia.
+Qed.
+
+(* ------------------------------------------------------------------------------------------ *)
+(* the other ops, histories *)
+
+Lemma cache_at_spec c B s off sz rs s' stt q :
+  cfg_ok c B -> SIs c B s -> Forall (resp_honest B) rs ->
+  cache_at c s off sz rs = (s', stt, q) ->
+  SIs c B s' /\ grows (s_fetched s) (s_fetched s') /\ stt <> SPanic.
+Proof.
+  intros [Hsz Hcs] HS Hh. unfold cache_at.
+  destruct (walk_chunks _ _ _) as [chunks|].
+  2:{ intros E; inversion E; subst. split; auto. split; [apply grows_refl|discriminate]. }
+  set (ws := map discard_writer _).
+  destruct (fetch_range c s [] ws rs) as [[[[s1 p2] ws2] stt1] q1] eqn:Ef.
+  assert (Hsafe : Forall wsafe ws).
+  { unfold ws. rewrite Forall_map. rewrite Forall_forall. intros x _. unfold wsafe; simpl. lia. }
+  destruct (fetch_range_spec c B 0%nat s [] ws rs s1 p2 ws2 stt1 q1 Hcs HS Hsafe Hh Ef) as (HS1 & G1 & N1 & _).
+  intros E; inversion E; subst. auto.
+Qed.
+
+Lemma cache_op_spec c B : cfg_ok c B -> forall ps scripts s s' stt q,
+  SIs c B s -> Forall (resp_honest B) (concat scripts) ->
+  cache_op c s ps scripts = (s', stt, q) ->
+  SIs c B s' /\ grows (s_fetched s) (s_fetched s') /\ stt <> SPanic.
+Proof.
+  intros Hc. induction ps as [|[o z] t IH]; intros scripts s s' stt q HS Hh; simpl.
+  - intros E; inversion E; subst. split; auto. split; [apply grows_refl|discriminate].
+  - assert (Hh1 : Forall (resp_honest B) (hd [] scripts) /\ Forall (resp_honest B) (concat (tl scripts))).
+    { destruct scripts as [|h tl0]; simpl in *; [split; constructor|]. apply Forall_app in Hh. exact Hh. }
+    destruct Hh1 as [Hh1 Hh2].
+    destruct (cache_at c s o z (hd [] scripts)) as [[s1 stt1] q1] eqn:E1.
+    destruct (cache_at_spec c B s o z _ s1 stt1 q1 Hc HS Hh1 E1) as (HS1 & G1 & N1).
+    destruct stt1; try (intros E; inversion E; subst; auto; fail).
+    destruct (cache_op c s1 t (tl scripts)) as [[s2 stt2] q2] eqn:E2.
+    destruct (IH (tl scripts) s1 s2 stt2 q2 HS1 Hh2 E2) as (HS2 & G2 & N2).
+    intros E; inversion E; subst. split; auto. split; auto. eapply grows_trans; eauto.
+Qed.
+
+Lemma status_result_nopanic stt r : stt <> SPanic -> r <> RPanic -> status_result stt r <> RPanic.
+Proof. destruct stt; simpl; auto; discriminate. Qed.
+
+Lemma check_op_nopanic rs : fst (check_op rs) <> SPanic.
+Proof.
+  unfold check_op.
+  repeat match goal with |- context [match ?x with _ => _ end] => destruct x end; simpl; discriminate.
+Qed.
+
+Lemma step_spec c B s o s' r q :
+  cfg_ok c B -> SIs c B s -> op_ok B o ->
+  step c s o = (s', r, q) ->
+  SIs c B s' /\ grows (s_fetched s) (s_fetched s') /\ r <> RPanic /\
+  (forall off p0 rs d, o = ReadAt off p0 rs -> r = ROk d -> d = expected B off (zlen p0)).
+Proof.
+  intros Hc HS [Hh Hoff]. destruct o as [off p0 rs|off sz scripts|reg|rs|rs]; simpl in *.
+  - intros E. destruct (read_at_spec c B s off p0 rs s' r q Hc Hoff HS Hh E) as (H1 & H2 & H3 & H4).
+    split; auto. split; auto. split; auto. intros off' p0' rs' d Heq. inversion Heq; subst. apply H4.
+  - destruct (cache_op c s _ scripts) as [[s1 stt] q1] eqn:E1.
+    destruct (cache_op_spec c B Hc _ _ _ _ _ _ HS Hh E1) as (H1 & H2 & H3).
+    intros E; inversion E; subst. split; auto. split; auto.
+    split; [apply status_result_nopanic; auto; discriminate|]. intros; discriminate.
+  - intros E; inversion E; subst. unfold evict; simpl. split.
+    + destruct HS as (A & B0 & C & D). unfold SIs; simpl. split; [|auto].
+      intros r d. rewrite cache_get_del. destruct (region_eqb reg r); [discriminate|apply A].
+    + split; [apply grows_refl|]. split; [discriminate|]. intros; discriminate.
+  - pose proof (check_op_nopanic rs) as Hnp.
+    destruct (check_op rs) as [stt q1]. intros E; inversion E; subst.
+    split; auto. split; [apply grows_refl|]. split; [|intros; discriminate].
+    apply status_result_nopanic; auto; discriminate.
+  - destruct (refresh_op c s rs) as [[s1 stt] q1] eqn:E1. intros E; inversion E; subst.
+    assert (Hs1 : s_cache s' = s_cache s /\ s_fetched s' = s_fetched s /\ s_ever s' = s_ever s /\ stt <> SPanic).
+    { unfold refresh_op in E1.
+      repeat match type of E1 with
+             | context [match ?x with _ => _ end] => destruct x
+             end; inversion E1; subst; simpl; repeat split; discriminate. }
+    destruct Hs1 as (A & B0 & C & D). unfold SIs. rewrite A, B0, C.
+    split; auto. split; [apply grows_refl|]. split; [|intros; discriminate].
+    apply status_result_nopanic; auto; discriminate.
+Qed.
+
+Lemma SIs_init c B : SIs c B (init c).
+Proof.
+  unfold SIs, init, SI; simpl. split; [intros r d H; discriminate|]. split; [apply good_nil|].
+  split; [constructor|]. intros x; tauto.
+Qed.
+
+Lemma exec_inv c B : cfg_ok c B -> forall os s,
+  SIs c B s -> Forall (op_ok B) os ->
+  SIs c B (exec c s os) /\ grows (s_fetched s) (s_fetched (exec c s os)).
+Proof.
+  intros Hc. induction os as [|o t IH]; intros s HS Hok.
+  - simpl. split; auto. apply grows_refl.
+  - inversion Hok as [|? ? H1 Ht]; subst.
+    destruct (step c s o) as [[s1 r] q] eqn:Es.
+    destruct (step_spec c B s o s1 r q Hc HS H1 Es) as (HS1 & G1 & _).
+    assert (Hex : exec c s (o :: t) = exec c s1 t) by (unfold exec; cbn [fold_left]; rewrite Es; reflexivity).
+    rewrite Hex.
+    destruct (IH s1 HS1 Ht) as [HS2 G2]. split; auto. eapply grows_trans; eauto.
+Qed.
+
+Lemma results_spec c B : cfg_ok c B -> forall os s,
+  SIs c B s -> Forall (op_ok B) os ->
+  forall o r, In (o, r) (results c s os) ->
+    r <> RPanic /\ (forall off p0 rs d, o = ReadAt off p0 rs -> r = ROk d -> d = expected B off (zlen p0)).
+Proof.
+  intros Hc. induction os as [|o t IH]; intros s HS Hok o' r' Hin; simpl in Hin; [contradiction|].
+  inversion Hok as [|? ? H1 Ht]; subst.
+  destruct (step c s o) as [[s1 r] q] eqn:Es.
+  destruct (step_spec c B s o s1 r q Hc HS H1 Es) as (HS1 & G1 & N1 & X1).
+  destruct Hin as [Heq|Hin].
+  - inversion Heq; subst. split; auto.
+  - eapply IH; eauto.
+Qed.
+
+(* meaning of FetchedSize in every state satisfying the invariant *)
+Lemma fetched_size_spec c B s :
+  cfg_ok c B -> SIs c B s ->
+  NoDup (points (s_fetched s)) /\
+  (forall x, In x (points (s_fetched s)) <-> covered (s_ever s) x) /\
+  Z.of_nat (length (points (s_fetched s))) = total_size (s_fetched s) /\
+  0 <= total_size (s_fetched s) <= c_size c /\
+  (forall x, covered (s_ever s) x -> 0 <= x < c_size c).
+Proof.
+  intros [Hsz Hcs] (H1 & H2 & H3 & H4).
+  destruct (total_size_card _ H2) as (N & I & L).
+  assert (Hb : forall x, covered (s_ever s) x -> 0 <= x < c_size c).
+  { intros x (r & Hin & Hx). rewrite Forall_forall in H3. destruct (H3 r Hin) as (A & B0 & C). unfold inr in Hx. lia. }
+  split; auto. split; [intros x; rewrite I; apply H4|]. split; auto. split; auto.
+  split; [rewrite <- L; lia|].
+  pose proof (total_size_bound (s_fetched s) (c_size c) H2) as Hbd.
+  pose proof (zlen_nonneg B). rewrite Z.max_r in Hbd by lia. apply Hbd. intros x Hx. apply Hb, H4, Hx.
+Qed.
+
+Lemma fetched_size_mono c B s s' :
+  SIs c B s -> SIs c B s' -> grows (s_fetched s) (s_fetched s') ->
+  total_size (s_fetched s) <= total_size (s_fetched s').
+Proof.
+  intros (_ & G & _) (_ & G' & _) Hg. apply total_size_mono; auto.
+Qed.
+
+(* any interleaving of the regionSet.add calls of all goroutines (each atomic under fetchedRegionSetMu) *)
+Lemma adds_any_order c : forall cks fe,
+  Good fe -> Forall (chunk_in c) cks ->
+  Good (fold_left add cks fe) /\
+  (forall x, covered (fold_left add cks fe) x <-> covered fe x \/ covered cks x).
+Proof.
+  induction cks as [|ck t IH]; intros fe HG Hc; simpl.
+  - split; auto. intros x. split; [auto|intros [H|H]; auto; destruct (covered_nil _ H)].
+  - inversion Hc as [|? ? H1 Ht]; subst.
+    assert (Hwf : wf_reg ck) by (unfold wf_reg; destruct H1; lia).
+    destruct (region_add_spec fe ck HG Hwf) as [HG1 HC1].
+    destruct (IH (add fe ck) HG1 Ht) as [HG2 HC2]. split; auto.
+    intros x. rewrite HC2, HC1, covered_cons. tauto.
+Qed.
+
+(* ------------------------------------------------------------------------------------------ *)
+(* one reader under interference *)
+
+Lemma copy_fetched_spec B o lk : lookups_honest B lk -> forall ws p,
+  Forall (wok B o p) ws ->
+  exists p' ws' ok, copy_fetched p ws lk = Some (p', ws', ok) /\ sound B o p p' /\
+    Forall (wok B o p') ws' /\ map wkey ws' = map wkey ws /\ (ok = true -> all_done B o p' ws').
+Proof.
+  intros Hlk. induction ws as [|w t IH]; intros p Hw.
+  - exists p, [], true. simpl. split; auto. split; [apply sound_refl|]. repeat split; auto; constructor.
+  - inversion Hw as [|? ? Hw1 Hwt]; subst. cbn [copy_fetched].
+    specialize (Hlk (w_chunk w)). destruct (lk (w_chunk w)) as [data|].
+    2:{ exists p, (w :: t), false. split; auto. split; [apply sound_refl|]. split; auto. split; auto. discriminate. }
+    simpl in Hlk. subst data.
+    destruct Hw1 as [G [R C]]. pose proof G as (G1 & G2 & G3 & G4 & G5 & G6 & G7 & G8).
+    assert (Hlen : zlen (blob_at B (w_chunk w)) = rsize (w_chunk w)) by (apply blob_at_length; unfold rsize in *; lia).
+    set (n := Z.to_nat (rsize (w_chunk w))).
+    assert (Hfn : firstn n (blob_at B (w_chunk w)) = blob_at B (w_chunk w)).
+    { apply firstn_all2. unfold zlen, n in *. lia. }
+    rewrite Hfn.
+    assert (Hbw : exists p1, bw_write p w (blob_at B (w_chunk w)) = Some (p1, w_advance w (rsize (w_chunk w))) /\
+               sound B o p p1 /\ wok B o p1 (w_advance w (rsize (w_chunk w))) /\
+               win B o p1 (Z.to_nat (w_base w)) (Z.to_nat (w_len w))).
+    { destruct C as [C|[C W]].
+      - destruct (bw_write_honest B o p w (blob_at B (w_chunk w)) G) as (p1 & E1 & S1 & Cov).
+        + lia.
+        + rewrite C. replace (rb (w_chunk w) + 0) with (rb (w_chunk w)) by lia. apply blob_at_prefix.
+        + rewrite Hlen in E1. exists p1. split; auto. split; auto.
+          assert (Wn : win B o p1 (Z.to_nat (w_base w)) (Z.to_nat (w_len w))).
+          { intros x Hx. apply Cov; lia. }
+          split; auto. split; [exact (wgeo_len o p p1 w (proj1 S1) G)|]. split; [exact R|].
+          right. simpl. split; [lia|exact Wn].
+      - exists p. rewrite <- Hlen. split; [apply bw_write_inert; auto|]. split; [apply sound_refl|].
+        rewrite Hlen. split; auto. split; [exact G|]. split; [exact R|]. right. simpl. split; [lia|exact W]. }
+    destruct Hbw as (p1 & E1 & S1 & W1 & Wn1). rewrite E1.
+    destruct (Z.ltb_spec (zlen (blob_at B (w_chunk w))) (rsize (w_chunk w))); [lia|].
+    destruct (IH p1) as (p2 & t' & ok & E2 & S2 & W2 & K2 & D2).
+    { eapply Forall_impl; [|exact Hwt]. intros a. apply wok_sound. exact S1. }
+    rewrite E2. exists p2, (w_advance w (rsize (w_chunk w)) :: t'), ok.
+    split; auto. split; [eapply sound_trans; eauto|].
+    split; [constructor; auto; eapply wok_sound; eauto|].
+    split; [simpl; rewrite K2; reflexivity|].
+    intros Hok. constructor; [|apply D2; exact Hok]. simpl. eapply sound_win; eauto.
+Qed.
+
+Lemma conc_rounds_spec c B o : 0 < c_cs c -> forall rounds f f' stt,
+  Forall (round_honest B) rounds -> SIf c B f -> Forall (wok B o (f_p f)) (f_ws f) ->
+  conc_rounds c f rounds = (f', stt) ->
+  cache_honest B (f_cache f') /\ stt <> SPanic /\
+  (stt = SOk -> sound B o (f_p f) (f_p f') /\ all_done B o (f_p f') (f_ws f)).
+Proof.
+  intros Hcs. induction rounds as [|rd t IH]; intros f f' stt Hh HS Hw; simpl.
+  - intros E; inversion E; subst. split; [apply HS|]. split; discriminate.
+  - inversion Hh as [|? ? Hr Ht]; subst. destruct rd as [single rs| |lk].
+    + simpl in Hr.
+      destruct (fetch0 single (map w_chunk (f_ws f)) rs) as [[[fr single'] rest] q0] eqn:Ef.
+      destruct fr as [parts ok| |]; try (intros E; inversion E; subst; split; [apply HS|]; split; discriminate).
+      intros Er.
+      assert (Hparts : Forall (part_honest B) parts) by (eapply fetch0_honest; eauto).
+      assert (HSf : SIf c B (mkF (f_cache f) (f_fetched f) (f_ever f) (f_p f) (f_ws f) [])) by exact HS.
+      destruct (fetch_regions_spec c B o parts ok _ f' stt Hcs Hparts HSf Er) as (HS1 & G1 & N1 & N1' & X1).
+      split; [apply HS1|]. split; [exact N1|]. intros Hs.
+      assert (HE : EI B o (mkF (f_cache f) (f_fetched f) (f_ever f) (f_p f) (f_ws f) [])).
+      { split; [exact Hw|]. rewrite Forall_forall. intros w _ Hm. simpl in Hm. discriminate. }
+      destruct (X1 HE Hs) as (S1 & D1 & _). apply fetch_regions_key in Er. cbn [f_ws f_p] in *.
+      split; [exact S1|]. eapply all_done_key; eauto.
+    + intros E; inversion E; subst. split; [apply HS|]. split; discriminate.
+    + simpl in Hr.
+      destruct (copy_fetched_spec B o lk Hr (f_ws f) (f_p f) Hw) as (p' & ws' & ok & E1 & S1 & W1 & K1 & D1).
+      rewrite E1. destruct ok.
+      * intros E; inversion E; subst. split; [apply HS|]. split; [discriminate|]. intros _. simpl.
+        split; [exact S1|]. eapply all_done_key; eauto.
+      * intros E.
+        assert (HS' : SIf c B (mkF (f_cache f) (f_fetched f) (f_ever f) p' ws' (f_seen f))).
+        { split; [apply HS|]. simpl. eapply wok_wsafe; eauto. }
+        destruct (IH _ f' stt Ht HS' W1 E) as (A & N & X). split; auto. split; auto.
+        intros Hs. destruct (X Hs) as [S2 D2]. cbn [f_p f_ws] in *.
+        split; [eapply sound_trans; eauto|]. eapply all_done_key; eauto.
+Qed.
+
+(* ReadAt of one reader under arbitrary honest interference (rely), with honest own commits (guarantee) *)
+Lemma read_conc_spec c B off p0 lk0 rounds r commits :
+  cfg_ok c B -> 0 <= off -> lookups_honest B lk0 -> Forall (round_honest B) rounds ->
+  read_conc c off p0 lk0 rounds = (r, commits) ->
+  r <> RPanic /\ (forall d, r = ROk d -> d = expected B off (zlen p0)) /\ cache_honest B commits.
+Proof.
+  intros [Hsz Hcs] Ho Hlk Hh. unfold read_conc.
+  assert (Hnil : cache_honest B []) by (intros k d H; discriminate).
+  destruct ((zlen p0 =? 0) || (c_size c <? off)) eqn:E0.
+  { intros E; inversion E; subst. split; [discriminate|]. split; auto.
+    intros d Hd. inversion Hd; subst. symmetry. apply expected_empty.
+    apply orb_true_iff in E0. destruct E0 as [E0|E0]; [left; apply Z.eqb_eq in E0; auto|right; apply Z.ltb_lt in E0; lia]. }
+  apply orb_false_iff in E0. destruct E0 as [E0a E0b]. apply Z.eqb_neq in E0a. apply Z.ltb_ge in E0b.
+  pose proof (zlen_nonneg p0) as Hn0.
+  destruct (read_walk (c_size c) (c_cs c) off (zlen p0) Hcs Ho ltac:(lia)) as (chunks & Ew & Hck & Hcov).
+  rewrite Ew.
+  assert (Hrc : Forall (rchunk (zlen B) off (zlen p0)) chunks).
+  { rewrite Forall_forall. intros ck Hin. destruct (Hck ck Hin) as (K1 & K2 & K3 & K4 & K5).
+    unfold rchunk. rewrite <- Hsz. repeat split; auto. }
+  destruct (prepare_conc_spec B off (zlen p0) _ Ho ltac:(lia) Hlk chunks p0 eq_refl Hrc) as (p1 & ws & E1 & S1 & W1 & C1 & D1).
+  rewrite E1.
+  assert (Hfin : forall p2, sound B (Z.to_nat off) p1 p2 -> all_done B (Z.to_nat off) p2 ws ->
+            firstn (Z.to_nat (adjust (c_size c) off (zlen p0))) p2 = expected B off (zlen p0)).
+  { intros p2 S2 D2.
+    pose proof (served_done B _ off (zlen p0) p1 p2 ws chunks S2 D2 D1) as Hwin.
+    assert (Hl2 : zlen p2 = zlen p0) by (rewrite (sound_zlen _ _ _ _ S2), (sound_zlen _ _ _ _ S1); reflexivity).
+    rewrite Hsz, <- Hl2. apply windows_exact with (chunks := chunks); rewrite ?Hl2; auto; try lia.
+    intros y Hy Hys. apply Hcov; lia. }
+  destruct ws as [|w0 wt].
+  { intros E; inversion E; subst. split; [discriminate|]. split; auto.
+    intros d Hd. inversion Hd; subst. apply Hfin; [apply sound_refl|constructor]. }
+  destruct (conc_rounds c _ rounds) as [f stt] eqn:Ec.
+  assert (HS0 : SIf c B (mkF [] [] [] p1 (w0 :: wt) [])).
+  { split; [|simpl; eapply wok_wsafe; eauto]. simpl. split; [exact Hnil|]. split; [apply good_nil|].
+    split; [constructor|]. intros x; tauto. }
+  destruct (conc_rounds_spec c B (Z.to_nat off) Hcs rounds _ f stt Hh HS0 W1 Ec) as (A & N & X).
+  intros E; inversion E; subst. split; [destruct stt; simpl; try discriminate; congruence|]. split; auto.
+  intros d Hd. destruct stt; simpl in Hd; try discriminate. inversion Hd; subst.
+  destruct (X eq_refl) as [S2 D2]. cbn [f_p f_ws] in *. apply Hfin; auto.
+Qed.
+
+(* ------------------------------------------------------------------------------------------ *)
+(* bytesWriter: the result does not depend on how the stream is cut into Write calls *)
+
+(* what a sequence of writes of the stream [data] (starting at stream position w_cur) does, position by position *)
+Definition bw_effect (p : bytes) (w : writer) (data : bytes) (p' : bytes) : Prop :=
+  length p' = length p /\
+  forall x : nat,
+    (w_base w <= Z.of_nat x < w_base w + w_len w /\
+     w_cur w <= w_off w + (Z.of_nat x - w_base w) < w_cur w + zlen data ->
+       nth_error p' x = nth_error data (Z.to_nat (w_off w + (Z.of_nat x - w_base w) - w_cur w))) /\
+    (~ (w_base w <= Z.of_nat x < w_base w + w_len w /\
+        w_cur w <= w_off w + (Z.of_nat x - w_base w) < w_cur w + zlen data) ->
+       nth_error p' x = nth_error p x).
+
+Lemma bw_write_effect p w data :
+  0 <= w_base w -> 0 <= w_len w -> 0 <= w_off w -> w_base w + w_len w <= zlen p -> 0 <= w_cur w ->
+  exists p', bw_write p w data = Some (p', w_advance w (zlen data)) /\ bw_effect p w data p'.
+Proof.
+  intros G1 G2 G3 G4 Hc. unfold bw_write. rewrite !positive_max.
+  pose proof (zlen_nonneg data) as Hd.
+  destruct (Z.ltb_spec (w_len w) (Z.max 0 (w_cur w - w_off w))) as [E1|E1].
+  { exists p. split; auto. split; auto. intros x. split; [lia|auto]. }
+  destruct (Z.leb_spec (zlen data) (Z.max 0 (w_off w - w_cur w))) as [E2|E2].
+  { exists p. split; auto. split; auto. intros x. split; [lia|auto]. }
+  set (pEnd := if zlen data <? Z.max 0 (w_off w + w_len w - w_cur w) then zlen data
+               else Z.max 0 (w_off w + w_len w - w_cur w)).
+  assert (HpEnd : pEnd = Z.min (zlen data) (Z.max 0 (w_off w + w_len w - w_cur w))).
+  { unfold pEnd. destruct (Z.ltb_spec (zlen data) (Z.max 0 (w_off w + w_len w - w_cur w))); lia. }
+  destruct (Z.ltb_spec pEnd (Z.max 0 (w_off w - w_cur w))) as [E3|E3]; [lia|].
+  unfold copy_into, slice.
+  set (k := Z.to_nat (w_base w + Z.max 0 (w_cur w - w_off w))).
+  set (pb := Z.to_nat (Z.max 0 (w_off w - w_cur w))).
+  set (src := firstn (Z.to_nat (w_len w - Z.max 0 (w_cur w - w_off w)))
+                (firstn (Z.to_nat (pEnd - Z.max 0 (w_off w - w_cur w))) (skipn pb data))).
+  assert (Hlen : length src = Z.to_nat (Z.min (w_len w - Z.max 0 (w_cur w - w_off w)) (pEnd - Z.max 0 (w_off w - w_cur w)))).
+  { unfold src. rewrite !firstn_length, skipn_length. unfold zlen, pb in *. lia. }
+  eexists. split; [reflexivity|]. split; [apply write_at_length|].
+  intros x. split.
+  - intros [Hx Hq]. rewrite write_at_in by (unfold zlen in *; unfold k; lia).
+    unfold src. rewrite !nth_error_firstn_lt by (unfold k; lia). rewrite nth_error_skipn_add.
+    f_equal. unfold pb, k. lia.
+  - intros Hn. apply write_at_out. unfold k. lia.
+Qed.
+
+Lemma bw_effect_nil p w : bw_effect p w [] p.
+Proof. split; auto. intros x. split; [unfold zlen; simpl; lia|auto]. Qed.
+
+Lemma bw_writes_effect : forall pieces p w,
+  0 <= w_base w -> 0 <= w_len w -> 0 <= w_off w -> w_base w + w_len w <= zlen p -> 0 <= w_cur w ->
+  exists p', bw_writes p w pieces = Some (p', w_advance w (zlen (concat pieces))) /\ bw_effect p w (concat pieces) p'.
+Proof.
+  induction pieces as [|d t IH]; intros p w G1 G2 G3 G4 Hc.
+  - exists p. simpl. split; [|apply bw_effect_nil].
+    destruct w; unfold w_advance, zlen; simpl. do 2 f_equal. f_equal. lia.
+  - destruct (bw_write_effect p w d G1 G2 G3 G4 Hc) as (p1 & E1 & [L1 F1]).
+    cbn [bw_writes]. rewrite E1.
+    pose proof (zlen_nonneg d) as Hd.
+    destruct (IH p1 (w_advance w (zlen d))) as (p2 & E2 & [L2 F2]); simpl; auto; try lia.
+    { unfold zlen in *. rewrite L1. exact G4. }
+    rewrite E2. exists p2. split.
+    + f_equal. f_equal. destruct w; unfold w_advance, zlen; simpl. rewrite app_length. f_equal. lia.
+    + split; [congruence|]. intros x. simpl in F2.
+      assert (Hz : zlen (d ++ concat t) = zlen d + zlen (concat t)) by (unfold zlen; rewrite app_length; lia).
+      simpl concat. rewrite Hz. pose proof (zlen_nonneg (concat t)) as Ht.
+      destruct (F1 x) as [F1a F1b]. destruct (F2 x) as [F2a F2b]. split.
+      * intros [Hx Hq].
+        destruct (Z_lt_ge_dec (w_off w + (Z.of_nat x - w_base w)) (w_cur w + zlen d)) as [Hlt|Hge].
+        -- rewrite F2b by lia. rewrite F1a by lia. rewrite nth_error_app1 by (unfold zlen in *; lia). reflexivity.
+        -- rewrite F2a by lia. rewrite nth_error_app2 by (unfold zlen in *; lia). f_equal. unfold zlen. lia.
+      * intros Hn. rewrite F2b by lia. apply F1b. lia.
+Qed.
+
+Lemma bw_effect_unique p w d p1 p2 : bw_effect p w d p1 -> bw_effect p w d p2 -> p1 = p2.
+Proof.
+  intros [L1 F1] [L2 F2]. apply list_ext; [congruence|].
+  intros x _. destruct (F1 x) as [A1 B1]. destruct (F2 x) as [A2 B2].
+  destruct (Z_le_gt_dec (w_base w) (Z.of_nat x)); [|rewrite B1, B2 by lia; reflexivity].
+  destruct (Z_lt_ge_dec (Z.of_nat x) (w_base w + w_len w)); [|rewrite B1, B2 by lia; reflexivity].
+  destruct (Z_le_gt_dec (w_cur w) (w_off w + (Z.of_nat x - w_base w))); [|rewrite B1, B2 by lia; reflexivity].
+  destruct (Z_lt_ge_dec (w_off w + (Z.of_nat x - w_base w)) (w_cur w + zlen d)); [|rewrite B1, B2 by lia; reflexivity].
+  rewrite A1, A2 by lia. reflexivity.
+Qed.
+
+(* two ways of cutting the same stream into Write calls leave the same buffer and the same writer *)
+Lemma bw_writes_partition pieces1 pieces2 p w :
+  0 <= w_base w -> 0 <= w_len w -> 0 <= w_off w -> w_base w + w_len w <= zlen p -> 0 <= w_cur w ->
+  concat pieces1 = concat pieces2 ->
+  bw_writes p w pieces1 = bw_writes p w pieces2 /\ bw_writes p w pieces1 <> None.
+Proof.
+  intros G1 G2 G3 G4 Hc Heq.
+  destruct (bw_writes_effect pieces1 p w G1 G2 G3 G4 Hc) as (p1 & E1 & F1).
+  destruct (bw_writes_effect pieces2 p w G1 G2 G3 G4 Hc) as (p2 & E2 & F2).
+  rewrite Heq in *. rewrite (bw_effect_unique _ _ _ _ _ F1 F2) in E1. rewrite E1, E2. split; [reflexivity|discriminate].
+Qed.
+
+Lemma exec_app c s os1 os2 : exec c s (os1 ++ os2) = exec c (exec c s os1) os2.
+Proof. unfold exec. apply fold_left_app. Qed.
+
+Lemma fetched_size_monotone c B os o :
+  cfg_ok c B -> Forall (op_ok B) os -> op_ok B o ->
+  total_size (s_fetched (exec c (init c) os)) <= total_size (s_fetched (exec c (init c) (os ++ [o]))).
+Proof.
+  intros Hc Hos Ho. rewrite exec_app.
+  destruct (exec_inv c B Hc os (init c) (SIs_init c B) Hos) as [HS1 _].
+  destruct (exec_inv c B Hc [o] _ HS1 (Forall_cons _ Ho (Forall_nil _))) as [HS2 G2].
+  eapply fetched_size_mono; eauto.
+Qed.
+
+Lemma total_size_same_cover rs rs' :
+  Good rs -> Good rs' -> (forall x, covered rs x <-> covered rs' x) -> total_size rs = total_size rs'.
+Proof.
+  intros G G' H. apply Z.le_antisymm; apply total_size_mono; auto; intros x Hx; apply H; exact Hx.
+Qed.
+
+Lemma adds_order_irrelevant c cks cks' :
+  Forall (chunk_in c) cks -> Forall (chunk_in c) cks' -> (forall x, covered cks x <-> covered cks' x) ->
+  total_size (fold_left add cks []) = total_size (fold_left add cks' []).
+Proof.
+  intros H1 H2 Hc.
+  destruct (adds_any_order c cks [] good_nil H1) as [G1 C1].
+  destruct (adds_any_order c cks' [] good_nil H2) as [G2 C2].
+  apply total_size_same_cover; auto. intros x. rewrite C1, C2, Hc. tauto.
+Qed.
+
+(* the per-op results the theorems speak about are the ones compared with the implementation *)
+Lemma run_results c : forall os s,
+  map (fun x : out => fst (fst (fst (fst x)))) (run c s os) = map snd (results c s os).
+Proof.
+  induction os as [|o t IH]; intros s; simpl; auto.
+  unfold step_out. destruct (step c s o) as [[s1 r] q]. simpl. f_equal. apply IH.
 Qed.
